@@ -337,16 +337,19 @@ def build_optimizer(params, cfg: dict, **extra):
     return DistributedShampoo(params, **kw)
 
 
-def make_params(shapes: list, seed: int, dtype: torch.dtype, scale: float = 1.0) -> list[torch.nn.Parameter]:
-    return [torch.nn.Parameter(make_tensor(s, "gauss", seed * 131 + i, scale, dtype)) for i, s in enumerate(shapes)]
+def make_params(shapes: list, seed: int, dtype, scale: float = 1.0) -> list[torch.nn.Parameter]:
+    """dtype: one torch.dtype or one per parameter."""
+    dts = list(dtype) if isinstance(dtype, (list, tuple)) else [dtype] * len(shapes)
+    return [torch.nn.Parameter(make_tensor(s, "gauss", seed * 131 + i, scale, dts[i])) for i, s in enumerate(shapes)]
 
 
-def step_grads(shapes: list, step: dict, dtype: torch.dtype) -> list[torch.Tensor | None]:
+def step_grads(shapes: list, step: dict, dtype) -> list[torch.Tensor | None]:
     out: list[torch.Tensor | None] = []
+    dts = list(dtype) if isinstance(dtype, (list, tuple)) else [dtype] * len(shapes)
     for i, s in enumerate(shapes):
         if step["mask"][i]:
             kind = step["gkind"] if ((step["gseed"] + i) % 4 or step["gkind"] in ("rowsparse", "onehot", "zeros")) else "gauss"
-            out.append(make_tensor(s, kind, step["gseed"] * 977 + i, step["gscale"], dtype))
+            out.append(make_tensor(s, kind, step["gseed"] * 977 + i, step["gscale"], dts[i]))
         else:
             out.append(None)
     return out
